@@ -190,6 +190,15 @@ def _hier_case(c):
             continue
         g.set_grid([pts], [lv])
         val = np.asarray(g.integrate(f, [max(lv)], np.array([a]), np.array([b])), dtype=float).ravel()
+        # a linear function that changes sign so that its nodal values cancel (sum to zero over the grid, exactly for dyadic trees)
+        tn = [(float(x) - a) / (b - a) for x in pts]
+        mean = sum(tn) / len(tn)
+        gz = _hier_grid(kind, a, b)[0]
+        gz.set_grid([pts], [lv])
+        vz = float(np.asarray(gz.integrate(CustomFunction(lambda x: ((float(x[0]) - a) / (b - a)) - mean), [max(lv)], np.array([a]), np.array([b])), dtype=float).ravel()[0])
+        if not (abs(vz - (b - a) * (0.5 - mean)) <= 1e-9 * (b - a)):
+            fails.append(fail("polynomial_exactness", "points %r: integral of the sign-changing linear function (x-a)/(b-a) - %r (nodal values sum to zero) is %r, exact %r"
+                              % (pts, mean, vz, (b - a) * (0.5 - mean)), dict(key, degree="linear")))
         degs = []
         ref = None
         if kind[0] == "highorder" and not kind[1][1]:
@@ -261,6 +270,10 @@ def _tensor_hier_case(c):
     subsets = [S for k in range(d + 1) for S in itertools.combinations(range(d), k)]
     ex = np.array([float(np.prod([_exact(1, a[i], b[i]) if i in S else (b[i] - a[i]) for i in range(d)])) for S in subsets])
     mono = lambda x, S: float(np.prod([float(x[i]) for i in S])) if S else 1.0
+    # sign-changing linear functions whose values cancel along every pole of their dimension
+    means = [sum((float(p) - a[k]) / (b[k] - a[k]) for p in ts[k][0]) / len(ts[k][0]) for k in range(d)]
+    vol = float(np.prod([b[k] - a[k] for k in range(d)]))
+    zex = np.array([vol * (0.5 - means[k]) for k in range(d)])
     for kind in c["rules"]:
         name, arg = kind[0], (tuple(kind[1]) if isinstance(kind[1], list) else kind[1])
         key = {"rule": name + "_%dd" % d, "order": str(arg)}
@@ -288,6 +301,13 @@ def _tensor_hier_case(c):
             if not (abs(v1 - ex[i]) <= tol):
                 fails.append(fail("tensor_multilinear_exactness", "trees %r: scalar integrand, monomial %r: %r, exact %r" % ([t[0] for t in ts], S, v1, ex[i]), dict(key, output="scalar")))
                 break
+        gz = make()
+        gz.set_grid([list(t[0]) for t in ts], [list(t[1]) for t in ts])
+        fz = CustomFunction(lambda x: [((float(x[k]) - a[k]) / (b[k] - a[k])) - means[k] for k in range(d)], output_length=d)
+        vz = np.asarray(gz.integrate(fz, lv, aa, bb), dtype=float).ravel()
+        if vz.shape != zex.shape or not (np.max(np.abs(vz - zex)) <= 1e-9 * max(1.0, vol)):
+            fails.append(fail("tensor_multilinear_exactness", "trees %r: sign-changing linear functions x_k - mean_k (values cancel along every pole): %r, exact %r"
+                              % ([t[0] for t in ts], vz.tolist(), zex.tolist()), dict(key, output="cancelling")))
         out.append(tuple(round(float(v), 9) for v in val))
     return fails, out
 
